@@ -68,6 +68,9 @@ def handle : Handler
   | "pre.bendswith", args => bytes2 (fun s p => outBool (endswith s p)) args
   | "pre.bcontains", args => bytes2 (fun s p => outBool (contains s p)) args
   | "pre.bpartition", args => bytes2 (fun s p => out3b (partition s p)) args
+  | "pre.spliton", args => str2 (fun s p => outList hexStr (splitOn s p)) args
+  | "pre.splitonce", args =>
+    str2 (fun s p => outExc (fun (a, b) => hexStr a ++ "|" ++ hexStr b) (splitOnce s p)) args
   | "pre.replace", args => str3 (fun s a b => hexStr (replace s a b)) args
   | "pre.stripc", args => str2 (fun s c => hexStr (stripChars s c)) args
   | "pre.lstripc", args => str2 (fun s c => hexStr (lstripChars s c)) args
